@@ -218,6 +218,31 @@ try_from_value_unit!(c10_try_from_value_member_name__n4, 4, 7, MemberName<'_>, s
 #[cfg(not(verif_skip_c10_try_from_value_bus_name__n4))]
 try_from_value_unit!(c10_try_from_value_bus_name__n4, 4, 7, BusName<'_>, spec_bus_name, "C10.try_from_value.bus_name.valid_names_accepted", "C10.try_from_value.bus_name.invalid_names_rejected");
 
+// ---- property names: the only rules are "non-empty" and "at most 255 BYTES" -- decided at the lengths around the limit on a
+// NON-ASCII text (two bytes per character), so that a limit counted in characters instead of bytes is visible
+// @unit C10.property_name.length props=C10 kind=bounded bound=lengths-0,2,254,256,300-bytes-of-two-byte-characters fn=<zbus_names::PropertyName.as.TryFrom<&str>>::try_from,zbus_names::property_name::ensure_correct_property_name timeout=1800
+#[cfg(not(verif_skip_c10_property_name_length__b300))]
+#[cfg(kani)]
+#[kani::proof]
+#[kani::stub(alloc::fmt::format, stub_format)]
+#[kani::unwind(152)]
+fn c10_property_name_length__b300() {
+    // 150 characters x 2 bytes = 300 bytes of "é" (0xC3 0xA9)
+    const BYTES: [u8; 300] = { let mut b = [0u8; 300]; let mut i = 0; while i < 300 { b[i] = if i % 2 == 0 { 0xC3 } else { 0xA9 }; i += 1; } b };
+    // lengths around both limits (bytes: 0, 2, 254, 256; characters: 127, 128, 150), cut on character boundaries
+    let k: u8 = kani::any();
+    kani::assume(k < 5);
+    let half: usize = match k { 0 => 0, 1 => 1, 2 => 127, 3 => 128, _ => 150 };
+    let len = 2 * half;
+    let s: &str = unsafe { core::str::from_utf8_unchecked(&BYTES[..len]) };
+    let r = PropertyName::try_from(s);
+    let ok = r.is_ok();
+    core::mem::forget(r);
+    obl!("C10.property_name.length.accepted_iff_1_to_255_bytes", ok == (len >= 1 && len <= 255));
+    kani::cover!(ok && len == 254, "cover.accepted_254_bytes_127_chars");
+    kani::cover!(!ok && len == 256, "cover.rejected_256_bytes_128_chars");
+}
+
 // @unit CANARY.zbus_names props=CANARY kind=complete expect=fail timeout=600
 #[cfg(not(verif_skip_canary_zbus_names_must_fail))]
 #[cfg(kani)]
